@@ -598,8 +598,16 @@ def main(modname, argv):
         per = max(1, budget // nworkers)
         alt_w = set(w for w in range(nworkers) if paths_alt and w % 4 == 3)
         jobs = [(modname, tier, seed, w, per, paths_alt if w in alt_w else paths) for w in range(nworkers)]
-        with mp.get_context("fork").Pool(nworkers) as pool:
-            results = pool.map(_worker, jobs, chunksize=1)
+        # ProcessPoolExecutor, not multiprocessing.Pool: when the kernel kills a worker (out of memory) Pool.map waits
+        # for ever, the executor raises
+        from concurrent.futures import ProcessPoolExecutor
+        from concurrent.futures.process import BrokenProcessPool
+        try:
+            with ProcessPoolExecutor(nworkers, mp_context=mp.get_context("fork")) as pool:
+                results = list(pool.map(_worker, jobs))
+        except BrokenProcessPool:
+            results = []
+            errors.append("a worker process died abnormally (killed by the kernel - out of memory?); nothing is concluded from this run")
         seen_fail = set()
         for r in results:
             st = r["stats"]
